@@ -35,6 +35,10 @@ RULE = (
     "positions (after sort_values, sample(frac=1), reversal, a permuted 0..n-1 index, boolean-mask and iloc[::2] subsets, a string "
     "index, an unrelated index on the data), 2-D DataFrame.values (Fortran order), 1-D xarray.DataArray data, Series queries; the same "
     "for median_distance coordinates and distance_mask data / query coordinates. "
+    "Equivalent spellings: k / k_nearest as python int, numpy int64/int32/intp/uint8 (k_nearest also 0-d array), maxdist as python int / "
+    "float, numpy integer / floating, 0-d array; a single query or data point as python scalars, numpy scalars, 0-d arrays, 1-element "
+    "arrays; falsy but valid values (maxdist 0, all-zero extra coordinate, points on the northing axis). Grid axes increasing or decreasing, "
+    "evenly or unevenly spaced. "
     "KNeighbors: k in {1,2,3,n-1,n,random}, reductions mean/median/min/max (+sum/ptp), data values unique per point, queries inside, "
     "outside and on the data, direct predict and nested through grid/scatter/profile/Chain/project_grid. median_distance: k=1..n-1. "
     "distance_mask: maxdist from the quantiles of the true nearest distances (also 0, huge, exactly a realised distance), array form "
@@ -91,7 +95,24 @@ FLOORS = {
         "pandas_fit:data_series_with_unrelated_index": 33, "pandas_fit:data_series_coordinates_ndarray": 35,
         "pandas_fit:coordinates_series_data_ndarray": 35, "pandas_frame:sort_values": 80, "pandas_frame:sample": 85,
         "pandas_frame:reversed": 88, "pandas_frame:permuted_integer_index": 145, "pandas_frame:boolean_mask_subset": 50,
-        "pandas_frame:every_other_row": 60, "pandas_frame:string_index": 94,
+        "pandas_frame:every_other_row": 60, "pandas_frame:string_index": 94, "class:knn_k_spelled_python_int": 760,
+        "class:knn_k_spelled_numpy_int64": 455, "class:knn_k_spelled_numpy_int32": 210, "class:knn_k_spelled_numpy_uint8": 210,
+        "class:median_k_spelled_python_int": 95, "class:median_k_spelled_numpy_int64": 90,
+        "class:median_k_spelled_numpy_int32": 40, "class:median_k_spelled_ndarray0d_int64": 43,
+        "class:mask_maxdist_spelled_python_int": 43, "class:mask_maxdist_spelled_python_float": 385,
+        "class:mask_maxdist_spelled_numpy_float64": 190, "class:mask_maxdist_spelled_numpy_float32": 20,
+        "class:mask_maxdist_spelled_numpy_int64": 20, "class:mask_maxdist_spelled_ndarray0d_float64": 185,
+        "class:mask_maxdist_spelled_ndarray0d_int64": 24, "class:knn_single_query_point_as_python_float": 20,
+        "class:knn_single_query_point_as_numpy_float64": 10, "class:knn_single_query_point_as_ndarray0d_float64": 8,
+        "class:knn_single_query_point_as_ndarray1d_float64": 40, "class:mask_single_query_point_as_numpy_float64": 4,
+        "class:mask_single_query_point_as_ndarray0d_float64": 3, "class:mask_single_query_point_as_ndarray1d_float64": 11,
+        "class:mask_single_data_point_as_python_float": 15, "class:mask_single_data_point_as_numpy_float64": 8,
+        "class:mask_single_data_point_as_ndarray0d_float64": 10, "class:mask_single_data_point_as_ndarray1d_float64": 54,
+        "class:mask_single_data_point_as_python_int": 4, "class:knn_fit_extra_coordinate_all_zero": 42,
+        "class:knn_fit_easting_or_northing_all_zero": 25, "class:median_extra_coordinate_all_zero": 21,
+        "class:median_easting_or_northing_all_zero": 10, "class:mask_data_easting_or_northing_all_zero": 11,
+        "class:grid_northing_decreasing": 125, "class:grid_easting_decreasing": 80, "class:grid_northing_unevenly_spaced": 125,
+        "class:grid_easting_unevenly_spaced": 125,
     },
     "thorough": {
         "eval:KNeighbors.predict": 25500, "eval:median_distance": 5400, "eval:distance_mask.array": 7650,
@@ -125,7 +146,25 @@ FLOORS = {
         "pandas_fit:data_series_with_unrelated_index": 495, "pandas_fit:data_series_coordinates_ndarray": 525,
         "pandas_fit:coordinates_series_data_ndarray": 525, "pandas_frame:sort_values": 1200, "pandas_frame:sample": 1275,
         "pandas_frame:reversed": 1320, "pandas_frame:permuted_integer_index": 2175, "pandas_frame:boolean_mask_subset": 750,
-        "pandas_frame:every_other_row": 900, "pandas_frame:string_index": 1410,
+        "pandas_frame:every_other_row": 900, "pandas_frame:string_index": 1410, "class:knn_k_spelled_python_int": 11400,
+        "class:knn_k_spelled_numpy_int64": 6825, "class:knn_k_spelled_numpy_int32": 3150,
+        "class:knn_k_spelled_numpy_uint8": 3150, "class:median_k_spelled_python_int": 1425,
+        "class:median_k_spelled_numpy_int64": 1350, "class:median_k_spelled_numpy_int32": 600,
+        "class:median_k_spelled_ndarray0d_int64": 645, "class:mask_maxdist_spelled_python_int": 645,
+        "class:mask_maxdist_spelled_python_float": 5775, "class:mask_maxdist_spelled_numpy_float64": 2850,
+        "class:mask_maxdist_spelled_numpy_float32": 300, "class:mask_maxdist_spelled_numpy_int64": 300,
+        "class:mask_maxdist_spelled_ndarray0d_float64": 2775, "class:mask_maxdist_spelled_ndarray0d_int64": 360,
+        "class:knn_single_query_point_as_python_float": 300, "class:knn_single_query_point_as_numpy_float64": 150,
+        "class:knn_single_query_point_as_ndarray0d_float64": 120, "class:knn_single_query_point_as_ndarray1d_float64": 600,
+        "class:mask_single_query_point_as_numpy_float64": 60, "class:mask_single_query_point_as_ndarray0d_float64": 45,
+        "class:mask_single_query_point_as_ndarray1d_float64": 165, "class:mask_single_data_point_as_python_float": 225,
+        "class:mask_single_data_point_as_numpy_float64": 120, "class:mask_single_data_point_as_ndarray0d_float64": 150,
+        "class:mask_single_data_point_as_ndarray1d_float64": 810, "class:mask_single_data_point_as_python_int": 60,
+        "class:knn_fit_extra_coordinate_all_zero": 630, "class:knn_fit_easting_or_northing_all_zero": 375,
+        "class:median_extra_coordinate_all_zero": 315, "class:median_easting_or_northing_all_zero": 150,
+        "class:mask_data_easting_or_northing_all_zero": 165, "class:grid_northing_decreasing": 1875,
+        "class:grid_easting_decreasing": 1200, "class:grid_northing_unevenly_spaced": 1875,
+        "class:grid_easting_unevenly_spaced": 1875,
     },
 }
 JOBS = {"quick": 1, "thorough": 8}
@@ -270,6 +309,62 @@ def nearest_squared_integer(qx, qy, px, py, chunk=200_000):
     return out, diagonal
 
 
+def spelling(obj):
+    """How the caller wrote a value: python_int, numpy_float64, ndarray0d_float64, ndarray1d_float64 ..."""
+    if isinstance(obj, np.ndarray):
+        return "ndarray%dd_%s" % (obj.ndim, obj.dtype)
+    if isinstance(obj, np.generic):
+        return "numpy_" + type(obj).__name__
+    return "python_" + type(obj).__name__ if isinstance(obj, (int, float)) else type(obj).__name__
+
+
+def as_integer(value):
+    """int(value) for python / numpy integers and 0-d integer arrays, else None."""
+    if isinstance(value, (bool, np.bool_)):
+        return None
+    if isinstance(value, (int, np.integer)):
+        return int(value)
+    if isinstance(value, np.ndarray) and value.ndim == 0 and value.dtype.kind in "iu":
+        return int(value)
+    return None
+
+
+def spell_number(rng, value, zero_d=True):
+    """The same number as python int/float, numpy integer/floating or 0-d array (value-preserving, float32 only when exact)."""
+    v = float(value)
+    options = [v, v, np.float64(v)]
+    if zero_d:
+        options.append(np.array(v))
+    if v == np.rint(v) and abs(v) < 2 ** 31:
+        options += [int(v), int(v), np.int64(int(v)), np.int32(int(v))]
+        if zero_d:
+            options.append(np.array(int(v)))
+    if float(np.float32(v)) == v:
+        options.append(np.float32(v))
+    return options[int(rng.integers(0, len(options)))]
+
+
+def spell_int(rng, value, zero_d=False):
+    options = [int(value), int(value), np.int64(value), np.int32(value), np.intp(value), np.uint8(value) if 0 <= value < 200 else int(value)]  # not near 255: k_nearest + 1 would wrap around in uint8
+    if zero_d:
+        options.append(np.array(int(value)))
+    return options[int(rng.integers(0, len(options)))]
+
+
+def spell_point(rng, values, python_ok=True):
+    """One point (a value per coordinate) as python scalars, numpy scalars, 0-d arrays or 1-element arrays."""
+    form = int(rng.integers(0, 5 if python_ok else 3))
+    if form == 0:
+        return tuple(np.float64(v) for v in values), "numpy_scalars"
+    if form == 1:
+        return tuple(np.array(float(v)) for v in values), "0d_arrays"
+    if form == 2:
+        return tuple(np.array([float(v)]) for v in values), "1_element_arrays"
+    if form == 3:
+        return tuple(float(v) for v in values), "python_floats"
+    return tuple(int(v) if float(v) == np.rint(float(v)) else float(v) for v in values), "python_numbers"
+
+
 def container_class(obj):
     """ndarray / Series / DataArray / scalar ... (what the caller handed over)."""
     if isinstance(obj, np.ndarray):
@@ -373,6 +468,10 @@ def install(tap, run):
             run.count("class:knn_fit_2d_fortran_order")
         if a.get("weights") is not None:
             run.count("class:knn_fit_with_weights")
+        if len(coords) > 2 and any(not np.any(np.asarray(c)) for c in coords[2:]):
+            run.count("class:knn_fit_extra_coordinate_all_zero")
+        if not np.any(px) or not np.any(py):
+            run.count("class:knn_fit_easting_or_northing_all_zero")
         if len(coords) > 2:
             run.count("class:knn_fit_extra_coordinates")
         if np.ndim(coords[0]) == 2:
@@ -402,16 +501,19 @@ def install(tap, run):
         k, reduction = est.k, est.reduction
         px, py, data = snap["x"], snap["y"], snap["data"]
         n = px.size
-        if not isinstance(k, (int, np.integer)) or k < 1 or k > n:
+        run.count("class:knn_k_spelled_" + spelling(k))
+        k = as_integer(k)
+        if k is None or k < 1 or k > n:
             run.count("skipped:predict_k_out_of_range")
             return
-        k = int(k)
         qx, qy = q0.ravel(), q1.ravel()
         run.evaluated("KNeighbors.predict")
         run.count("class:knn_k=%s" % ("1" if k == 1 else "n" if k == n else "n-1" if k == n - 1 else "2..n-2"))
         run.count("class:knn_query_%dd" % q0.ndim)
         if container_class(coords[0]) != "ndarray":
             run.count("class:knn_query_container_" + container_class(coords[0]))
+        if q0.size == 1:
+            run.count("class:knn_single_query_point_as_" + spelling(coords[0]))
         if len(coords) > 2:
             run.count("class:knn_query_extra_coordinates")
         if ev.parent is not None:
@@ -489,10 +591,11 @@ def install(tap, run):
             return
         x, y = np.atleast_1d(c0).ravel(), np.atleast_1d(c1).ravel()
         n = x.size
-        if not isinstance(k, (int, np.integer)) or k < 1 or k > n - 1:
+        run.count("class:median_k_spelled_" + spelling(k))
+        k = as_integer(k)
+        if k is None or k < 1 or k > n - 1:
             run.count("skipped:median_k_exceeds_other_points")
             return
-        k = int(k)
         if projection is not None:
             px, py = projection(x.copy(), y.copy())
             px, py = _flat(px), _flat(py)
@@ -503,6 +606,10 @@ def install(tap, run):
         run.evaluated("median_distance")
         run.count("class:median_k=%s" % ("1" if k == 1 else "n-1" if k == n - 1 else "2..n-2"))
         run.count("class:median_input_%dd" % c0.ndim)
+        if not np.any(c0) or not np.any(c1):
+            run.count("class:median_easting_or_northing_all_zero")
+        if len(coords) > 2 and any(not np.any(np.asarray(c)) for c in coords[2:]):
+            run.count("class:median_extra_coordinate_all_zero")
         if container_class(coords[0]) != "ndarray":
             run.count("class:median_coordinates_container_" + container_class(coords[0]))
             run.count("class:median_coordinates_index_%s" % index_class(coords[0]))
@@ -589,6 +696,21 @@ def install(tap, run):
         if len(dc) > 2 or (coords is not None and len(coords) > 2):
             run.count("class:mask_extra_coordinates")
         run.count("class:mask_query_%dd" % q0.ndim)
+        run.count("class:mask_maxdist_spelled_" + spelling(a["maxdist"]))
+        if dx.size == 1:
+            run.count("class:mask_single_data_point_as_" + spelling(dc[0]))
+        if coords is not None and q0.size == 1:
+            run.count("class:mask_single_query_point_as_" + spelling(coords[0]))
+        if not np.any(dx) or not np.any(dy):
+            run.count("class:mask_data_easting_or_northing_all_zero")
+        if form == "grid":
+            for axis, vec in (("northing", north_vec), ("easting", east_vec)):
+                if vec.size > 1:
+                    steps = np.diff(vec)
+                    if np.all(steps < 0):
+                        run.count("class:grid_%s_decreasing" % axis)
+                    if not np.allclose(steps, steps[0], rtol=1e-6, atol=0):
+                        run.count("class:grid_%s_unevenly_spaced" % axis)
         if container_class(dc[0]) not in ("ndarray", "scalar"):
             run.count("class:mask_data_coordinates_container_" + container_class(dc[0]))
             run.count("class:mask_data_coordinates_index_%s" % index_class(dc[0]))
@@ -647,11 +769,13 @@ def install(tap, run):
                 key="mask:%s:%s" % (form, kind))
 
         if form == "array":
-            if not isinstance(res, np.ndarray) or res.shape != q0.shape or res.dtype != bool:
+            # for a 0-d query numpy hands back a numpy bool scalar: it has the query's shape () and is accepted
+            if not isinstance(res, (np.ndarray, np.bool_)) or np.shape(res) != q0.shape or np.asarray(res).dtype != bool:
                 run.violation("distance_mask.array", "mask is %s of shape %s dtype %s for query arrays of shape %s"
                               % (type(res).__name__, getattr(res, "shape", None), getattr(res, "dtype", None), q0.shape),
                               dict(witness, result=res), key="mask:array:shape")
                 return
+            res = np.asarray(res)
             wrong_false = must_true & ~res
             wrong_true = must_false & res
             if wrong_false.any():
@@ -772,12 +896,12 @@ def _shape_2d(rng, size):
     return r, size // r
 
 
-def _present(rng, arrays, allow_0d=False):
+def _present(rng, arrays, allow_0d=False, python_ok=True):
     """The same element sequence as 1-D / 2-D C / 2-D Fortran / strided arrays."""
     size = arrays[0].size
     mode = int(rng.integers(0, 5))
-    if size == 1 and allow_0d and rng.random() < 0.5:
-        return tuple(np.float64(a[0]) for a in arrays), "0d"
+    if size == 1 and allow_0d and rng.random() < 0.7:
+        return spell_point(rng, [a[0] for a in arrays], python_ok=python_ok)
     shp = _shape_2d(rng, size) if mode in (1, 2) else None
     if shp is not None:
         out = [a.reshape(shp) for a in arrays]
@@ -829,6 +953,11 @@ def _frame(run, rng, columns, op=None, keep_all=False):
         df = df.set_axis(["p%03d" % i for i in rng.permutation(n)])
     run.count("pandas_frame:" + op)
     return df, op
+
+
+def _extra_coordinate(rng, n):
+    """A third coordinate that must be ignored; sometimes 0 everywhere (falsy but valid)."""
+    return np.zeros(n) if rng.random() < 0.3 else rng.normal(size=n)
 
 
 def _n_points(rng, lo=1, hi=300):
@@ -929,7 +1058,11 @@ def _knn_case(run, verde, rng):
         east, north = gen.cloud(rng, _n_points(rng))
     n = east.size
     data = _unique_data(rng, n)
-    extras = [rng.normal(size=n)] if rng.random() < 0.25 else []
+    extras = [_extra_coordinate(rng, n)] if rng.random() < 0.25 else []
+    if rng.random() < 0.04:
+        # falsy but valid: every point on the northing axis (easting == 0), the old easting rides along as an extra coordinate
+        extras = [east.copy()]
+        east = np.zeros(n)
     weights_in = None
     if rng.random() < 0.4:
         east_in, north_in, data_in, extra_in, weights_in, east, north, data = _pandas_fit_inputs(run, rng, east, north, data, extras)
@@ -938,7 +1071,7 @@ def _knn_case(run, verde, rng):
         (east_in, north_in, data_in, *extra_in), layout = _present(rng, [east, north, data] + extras)
     k = _k_choice(rng, n)
     reduction = REDUCTIONS[int(rng.integers(0, len(REDUCTIONS)))]
-    est = verde.KNeighbors(k=k, reduction=reduction)
+    est = verde.KNeighbors(k=spell_int(rng, k), reduction=reduction)
     weights = weights_in if weights_in is not None else (np.ones_like(np.asarray(data_in), dtype="float64") if rng.random() < 0.15 else None)
     with warnings.catch_warnings():
         warnings.simplefilter("ignore")
@@ -1004,13 +1137,17 @@ def _median_case(run, verde, rng):
         n = east.size
         k = int(min(max(int(rng.choice([1, 1, 2, 3, 4, n - 1, int(rng.integers(1, n)), int(rng.integers(1, min(n, 25)))])), 1), n - 1))
         projection = _projection(rng, east, north)
-        extras = [rng.normal(size=n)] if rng.random() < 0.25 else []
+        extras = [_extra_coordinate(rng, n)] if rng.random() < 0.25 else []
+        if rng.random() < 0.04:
+            extras = [east.copy()]
+            east = np.zeros(n)
+            projection = None if isinstance(projection, Warp) else projection
         if rng.random() < 0.3:  # columns of a frame whose index labels are not the positions
             df, _ = _frame(run, rng, [("easting", east), ("northing", north)] + [("extra", x) for x in extras], keep_all=True)
             coords = tuple(df[c] for c in df.columns)
         else:
             coords, layout = _present(rng, [east, north] + extras)
-        out = verde.median_distance(coords, k_nearest=k, projection=projection)
+        out = verde.median_distance(coords, k_nearest=spell_int(rng, k, zero_d=True), projection=projection)
     run.sample("median", {"coordinates": list(coords[:2]), "k_nearest": k, "projection": repr(projection), "result": out})
 
 
@@ -1034,14 +1171,18 @@ def _mask_case(run, verde, rng):
     for _ in range(3):
         n = 1 if rng.random() < 0.1 else _n_points(rng, 1, 200)
         east, north = gen.cloud(rng, n)
+        axis_points = n > 1 and rng.random() < 0.04  # falsy but valid: all data points on the northing axis (easting == 0)
+        if axis_points:
+            spare, east = east.copy(), np.zeros(n)
         form = int(rng.integers(0, 3))
-        if form == 0:  # scattered queries
-            qx, qy = _queries(rng, east, north)
+        if form == 0:  # scattered queries (often a single point, in its various spellings)
+            qx, qy = _queries(rng, east, north, 1 if rng.random() < 0.25 else None)
             if rng.random() < 0.3:
                 qdf, _ = _frame(run, rng, [("qx", qx), ("qy", qy)], keep_all=True)
                 query = (qdf.qx, qdf.qy)
             else:
-                query, qlayout = _present(rng, [qx, qy] + ([rng.normal(size=qx.size)] if rng.random() < 0.2 else []))
+                query, qlayout = _present(rng, [qx, qy] + ([_extra_coordinate(rng, qx.size)] if rng.random() < 0.2 else []),
+                                          allow_0d=True, python_ok=False)  # python scalars have no .shape: verde refuses them as queries
         else:  # a non-square mesh (possibly irregular and descending)
             ne, nn = int(rng.integers(2, 40)), int(rng.integers(2, 30))
             if ne == nn:
@@ -1064,14 +1205,16 @@ def _mask_case(run, verde, rng):
             nearest = nearest_distance(np.ravel(pqx), np.ravel(pqy), np.ravel(pe), np.ravel(pn))
         maxdist = _maxdist_choice(rng, nearest)
         if n == 1 and rng.random() < 0.5:
-            data_coords = (float(east[0]), float(north[0]))
+            data_coords, _ = spell_point(rng, [east[0], north[0]])
         else:
-            if rng.random() < 0.3:
+            if axis_points:
+                data_coords = (east, north, spare)
+            elif rng.random() < 0.3:
                 ddf, _ = _frame(run, rng, [("easting", east), ("northing", north)], keep_all=True)
                 data_coords = (ddf.easting, ddf.northing)
             else:
-                data_coords, _ = _present(rng, [east, north] + ([rng.normal(size=n)] if rng.random() < 0.2 else []))
-        out = verde.distance_mask(data_coords, maxdist, coordinates=query, projection=projection)
+                data_coords, _ = _present(rng, [east, north] + ([_extra_coordinate(rng, n)] if rng.random() < 0.2 else []))
+        out = verde.distance_mask(data_coords, spell_number(rng, maxdist), coordinates=query, projection=projection)
     run.sample("mask", {"data_coordinates": list(data_coords[:2]), "maxdist": maxdist, "projection": repr(projection),
                         "query_shape": list(np.shape(query[0])), "mask": out})
 
@@ -1143,7 +1286,7 @@ def _masked_grid(run, verde, rng, data_coords, maxdist, dn, de, nv, ev, variable
             run.count("accepted:grid_with_extra_1d_data_variable")
         except (IndexError, ValueError):
             run.count("refused:grid_with_extra_1d_data_variable")
-    return verde.distance_mask(data_coords, maxdist, grid=grid, projection=projection), how
+    return verde.distance_mask(data_coords, spell_number(rng, maxdist), grid=grid, projection=projection), how
 
 
 def _mask_grid_case(run, verde, rng):
@@ -1185,7 +1328,7 @@ def _mask_grid_case(run, verde, rng):
             pqx, pqy = projection(qx, qy)
             nearest = nearest_distance(np.ravel(pqx), np.ravel(pqy), np.ravel(pe), np.ravel(pn))
         maxdist = _maxdist_choice(rng, nearest)
-        data_coords = (float(east[0]), float(north[0])) if n == 1 and rng.random() < 0.5 else (east, north)
+        data_coords = spell_point(rng, [east[0], north[0]])[0] if n == 1 and rng.random() < 0.5 else (east, north)
         out, how = _masked_grid(run, verde, rng, data_coords, maxdist, dn, de, nv, ev, variables, projection)
     run.sample("mask_grid", {"data_coordinates": list(data_coords), "maxdist": maxdist, "projection": repr(projection),
                              "dims": [dn, de], "grid_shape": [nn, ne], "variables": list(variables), "built": how,
@@ -1217,6 +1360,8 @@ def _mask_exact_case(run, verde, rng):
         nv = oy + np.arange(nn) * step
         if rng.random() < 0.3:
             nv = nv[::-1].copy()
+        if rng.random() < 0.25:
+            ev = ev[::-1].copy()
         n_data = int(rng.choice([1, 1, 2, 3, 4, 8]))
         de = ev[rng.integers(0, ne, n_data)] + (rng.integers(-2, 3, n_data) if rng.random() < 0.3 else 0)
         dn = nv[rng.integers(0, nn, n_data)] + (rng.integers(-2, 3, n_data) if rng.random() < 0.3 else 0)
@@ -1245,18 +1390,18 @@ def _mask_exact_case(run, verde, rng):
             maxdist = int(maxdist)
         as_int = rng.random() < 0.4
         data_coords = (de.astype("int64"), dn.astype("int64")) if as_int else (de.astype("float64"), dn.astype("float64"))
-        if n_data == 1 and rng.random() < 0.4:
-            data_coords = (float(de[0]), float(dn[0]))
+        if n_data == 1 and rng.random() < 0.5:
+            data_coords, _ = spell_point(rng, [de[0], dn[0]])
         form = int(rng.integers(0, 3))
         if form == 0:  # 2-D mesh, array form
             dtype = "int64" if rng.random() < 0.4 else "float64"
             query = (qx.reshape(nn, ne).astype(dtype), qy.reshape(nn, ne).astype(dtype))
-            out = verde.distance_mask(data_coords, maxdist, coordinates=query, projection=projection)
+            out = verde.distance_mask(data_coords, spell_number(rng, maxdist), coordinates=query, projection=projection)
             kept = int(np.sum(out))
         elif form == 1:  # scattered subset of the nodes, array form
             take = rng.permutation(qx.size)[: int(rng.integers(1, qx.size + 1))]
             query = (qx[take].astype("float64"), qy[take].astype("float64"))
-            out = verde.distance_mask(data_coords, maxdist, coordinates=query, projection=projection)
+            out = verde.distance_mask(data_coords, spell_number(rng, maxdist), coordinates=query, projection=projection)
             kept = int(np.sum(out))
         else:  # grid form
             dn_name, de_name = DIM_NAMES[int(rng.integers(0, len(DIM_NAMES)))]
